@@ -152,7 +152,7 @@ type oscase = { img : image; queries : string list; root_phys : coq_N option; nf
 let parse_os (toks : string list) : oscase =
   let names = Hashtbl.create 16 in
   let os = ref OS_UNKNOWN and ver = ref None and pb = ref None and root = ref None and vb = ref None
-  and xx = ref None and caps = ref 0 and cells = ref [] and qs = ref [] and rp = ref None in
+  and xx = ref None and caps = ref 0 and cells = ref [] and qs = ref [] and rp = ref None and psh = ref None in
   let optn v = if v = "-" then None else Some (n_of_hex v) in
   Stdlib.List.iter (fun t ->
     let after k = String.sub t k (String.length t - k) in
@@ -163,8 +163,9 @@ let parse_os (toks : string list) : oscase =
     else if String.length t >= 3 && String.sub t 0 3 = "vb=" then vb := optn (after 3)
     else if String.length t >= 3 && String.sub t 0 3 = "rp=" then
       rp := (match split_on ':' (after 3) with [_; x] -> Some (n_of_hex x) | [x] -> optn x | _ -> None)
+    else if String.length t >= 3 && String.sub t 0 3 = "ps=" then psh := optn (after 3)
     else if String.length t >= 3 && (String.sub t 0 3 = "bo=" || String.sub t 0 3 = "nf=" || String.sub t 0 3 = "dm="
-                                     || String.sub t 0 3 = "ps=" || String.sub t 0 3 = "fs=" || String.sub t 0 3 = "tg=") then ()
+                                     || String.sub t 0 3 = "fs=" || String.sub t 0 3 = "tg=") then ()
     else if String.length t >= 4 && String.sub t 0 4 = "fmt=" then ()
     else if String.length t >= 5 && String.sub t 0 5 = "arch=" then ()
     else if String.length t >= 6 && String.sub t 0 6 = "pbits=" then ()
@@ -193,12 +194,15 @@ let parse_os (toks : string list) : oscase =
   let nm k n = match Hashtbl.find_opt names (k, n) with Some r -> r | None -> CbErr Step.NODATA in
   let mem = mem_of_cells (Stdlib.List.rev_map parse_cell !cells) in
   { img = { i_os = !os; i_version = !ver; i_phys_base = !pb; i_rootpgt = !root; i_virt_bits = !vb;
-            i_xen_xlat = !xx;
+            i_xen_xlat = !xx; i_page_shift = !psh;
             sym_init_top_pgt = nm 'S' "init_top_pgt"; sym_init_level4_pgt = nm 'S' "init_level4_pgt";
             sym_stext = nm 'S' "_stext"; sym_text = nm 'S' "_text";
             sym_page_offset_base = nm 'S' "page_offset_base";
             reg_cr3 = nm 'R' "cr3"; reg_cr4 = nm 'R' "cr4";
             num_sme_mask = nm 'N' "sme_mask"; num_pgtable_l5_enabled = nm 'N' "pgtable_l5_enabled";
+            sym_swapper_pg_dir = nm 'S' "swapper_pg_dir"; num_va_kernel_pa_offset = nm 'N' "va_kernel_pa_offset";
+            num_PAGE_OFFSET = nm 'N' "PAGE_OFFSET"; num_VA_BITS = nm 'N' "VA_BITS";
+            num_kimage_voffset = nm 'N' "kimage_voffset"; num_TCR_EL1_T1SZ = nm 'N' "TCR_EL1_T1SZ";
             caps_kphys = !caps land 1 <> 0; caps_machphys = !caps land 2 <> 0; caps_kv = !caps land 4 <> 0;
             raw = mem };
     queries = Stdlib.List.rev !qs; root_phys = !rp; nfields_hint = 0 }
@@ -211,9 +215,12 @@ let string_of_ostatus = function
 let run_os (toks : string list) : string =
   let arch = Stdlib.List.fold_left (fun a t ->
     if String.length t > 5 && String.sub t 0 5 = "arch=" then String.sub t 5 (String.length t - 5) else a) "x86_64" toks in
-  if arch <> "x86_64" || Stdlib.List.mem "os=x" toks then "nomodel" else
+  if (arch <> "x86_64" && arch <> "riscv64" && arch <> "aarch64") || Stdlib.List.mem "os=x" toks then "nomodel" else
   let c = parse_os toks in
-  let (st, s) = sys_x86_64 c.img hl_fuel in
+  let (st, s) = match arch with
+    | "riscv64" -> LinuxRvA64Model.sys_riscv64 c.img hl_fuel
+    | "aarch64" -> LinuxRvA64Model.sys_aarch64 c.img
+    | _ -> sys_x86_64 c.img hl_fuel in
   let b = Buffer.create 512 in
   Buffer.add_string b (string_of_ostatus st);
   Buffer.add_string b (dump_sys s);
